@@ -95,6 +95,8 @@ class TreeGen:
         kinds = ['para', 'para', 'para', 'atx', 'hr', 'fence']
         if not first_in_item:
             kinds += ['icode', 'table', 'html']
+        else:
+            kinds += ['table']        # an item may begin with a table (ListItem.read once took the next item's table for the end of the list)
         if not in_quote or self.setext_in_quote:
             kinds.append('setext')
         if depth < self.max_depth:
